@@ -187,6 +187,34 @@ def judge(traces, wd, module="BiomTrace.tla", cfg="BiomTrace.cfg", njvm=None, na
 
 
 # ---------------------------------------------------------------- spec checks
+def prove(module, deps, wd, timeout=1500, name="tlaps"):
+    """Run the TLA+ proof system on spec/<module> (deps = the spec modules it extends).  Every obligation
+    must be proved; anything else is a machinery failure (a proof TLAPS rejects is never used)."""
+    import re
+    import subprocess
+    import zipfile
+    d = os.path.join(wd, name)
+    shutil.rmtree(d, ignore_errors=True)
+    os.makedirs(os.path.join(d, "cm"))
+    for f in [module] + list(deps):
+        shutil.copy(os.path.join(tlcrun.SPEC_DIR, f), d)
+    jar = [x for x in tlcrun.TLA_CP.split(":") if "CommunityModules" in x][0]
+    with zipfile.ZipFile(jar) as z:
+        for n in z.namelist():
+            if n.endswith(".tla") and "/" not in n:
+                z.extract(n, os.path.join(d, "cm"))
+    t0 = time.time()
+    p = subprocess.run(["tlapm", "--threads", str(NPROC), "-I", os.path.join(d, "cm"), module], cwd=d,
+                       stdout=subprocess.PIPE, stderr=subprocess.STDOUT, text=True, timeout=timeout)
+    m = re.search(r"All (\d+) obligations? proved", p.stdout)
+    shutil.rmtree(d, ignore_errors=True)
+    if p.returncode != 0 or not m:
+        raise Machinery("TLAPS did not prove %s:\n%s" % (module, p.stdout[-1500:]))
+    return {"module": module, "cfg": "tlapm", "obligations_proved": int(m.group(1)), "states": 0, "transitions": 0,
+            "depth": 0, "wall_s": round(time.time() - t0, 2)}
+
+
+
 def model_check(module, cfg, wd, env=None, workers=NPROC, timeout=1200, name="mc", extra=None):
     r = tlcrun.run_tlc(module, cfg, env=env, workers=workers, metadir=os.path.join(wd, name + "_meta"),
                        timeout=timeout, extra=extra)
